@@ -1,7 +1,7 @@
 (* C12 - the property lemmas: every query agrees with the graph, queries change nothing, removed
    peers are gone and can come back, blacklists are respected. *)
 From Coq Require Import ZArith List Bool Lia Arith.
-From IPV8V Require Import lib.PyErr lib.Bytes model.M12_network spec.S12_graph proofs.P12_base proofs.P12_inv.
+From IPV8V Require Import lib.PyErr lib.Bytes model.M02_wire model.M12_network spec.S12_graph proofs.P12_base proofs.P12_inv.
 Import ListNotations.
 Open Scope Z_scope.
 
